@@ -42,12 +42,12 @@ impl Check for C18 {
         "C18"
     }
     fn rule(&self) -> String {
-        "scenario i = space, world (obstacle-free for the exact clauses, obstructed for soundness), connection radius, a sample budget N fixed by the virtual clock (a stall at the N-th sample, N from 1 up), sampling passthrough or scripted over a state alphabet, two problems, and a call history (construct, construct again, solve, replace problem, solve); the reference model replays the recorded sample stream and validity answers; distinct = distinct scenario hash; non-trivial = the roadmap has at least 2 milestones and a query executed".into()
+        "indices below 12 x sequences: EVERY sample sequence up to length 5 (quick) / 6 (thorough) over a 4- (5-) state alphabet in 12 fixtures (6 space kinds x {alphabet world, obstacle-free}); remaining indices: scenario i = space, world (obstacle-free for the exact clauses, obstructed for soundness), connection radius, a sample budget N fixed by the virtual clock (a stall at the N-th sample, N from 1 up), sampling passthrough or scripted over a state alphabet, two problems, and a call history (construct, construct again, solve, replace problem, solve); the reference model replays the recorded sample stream and validity answers; distinct = distinct scenario hash; non-trivial = the roadmap has at least 2 milestones and a query executed".into()
     }
     fn default_runs(&self, tier: Tier) -> u64 {
         match tier {
-            Tier::Quick => 8_000,
-            Tier::Thorough => 250_000,
+            Tier::Quick => 12 * crate::treechecks::seq_total(4, 5) + 8_000,
+            Tier::Thorough => 12 * crate::treechecks::seq_total(5, 6) + 250_000,
         }
     }
     fn assumptions(&self) -> Vec<String> {
@@ -61,6 +61,25 @@ impl Check for C18 {
     }
 
     fn generate(&self, seed: u64, index: u64, tier: Tier) -> Scenario {
+        let (a, d) = if tier == Tier::Thorough { (5u64, 6u32) } else { (4u64, 5u32) };
+        let per = crate::treechecks::seq_total(a, d);
+        if index < 12 * per {
+            // EVERY sample sequence up to depth d over the fixture's alphabet
+            let f = index / per;
+            let (mut scn, alpha) = crate::treechecks::fixture("C18", seed, f, PlannerKind::PRM, a as usize);
+            scn.index = index;
+            let seq = crate::treechecks::nth_sequence(a, index % per);
+            scn.sampling.script = seq.iter().map(|i| alpha[*i].clone()).collect();
+            scn.problems[0].goal.radius = scn.problems[0].goal.radius.max(0.2 * scn.param("ext").unwrap_or(1.0));
+            scn.calls = vec![
+                CallSpec::Setup { problem: 0 },
+                gen::construct_call(seq.len() as u64),
+                gen::construct_call(3),
+                CallSpec::Solve { timeout_ns: 1_000_000_000_000, stalls: vec![] },
+            ];
+            scn.params.insert("enumerated".into(), 1.0);
+            return scn;
+        }
         let mut rng = Xo::new(mix(seed, "C18", index));
         let free = rng.chance(0.5);
         let o = GenOpts {
@@ -131,6 +150,9 @@ impl Check for C18 {
         rep.absorb(&out);
         if !scn.sampling.script.is_empty() {
             rep.probe("scripted");
+        }
+        if scn.param("enumerated").is_some() {
+            rep.probe("enumerated_sequence");
         }
         let ev = Eval::new(scn, &out);
         let g = &ev.geo;
